@@ -236,7 +236,7 @@ var idlTokens = []string{"package", "interface", "struct", "enum", "end", "fn", 
 	"Vec<", "Map<", "Tuple<", "int32", "str", "any", "obj", "bool", "float64", "unknown", "A", "b", "x1", "_", "0", "-1", "\n", "\n", " ", "\t", "é", "\x00"}
 
 func c18(c *wk.Ctx) {
-	c.Note("rule", "streams: roundtrip = packages of 1-3 generated meta-objects (methods with tuple parameter signatures - with no, exactly as many, fewer or more parameter descriptions than parameters - and any return incl. v, signals and properties with tuple signatures; signatures from the grammar with structs shared between actions, nested tuples, template-style struct names, m o X; unique uids in 1..2^32-1; names = identifiers avoiding IDL keywords and basic-type prefixes): ParseIDL(GenerateIDL(m)) must give the same uids, names and signatures; wide = the same with one action of 120 .. 8000 parameters (one IDL line of 2 KiB .. 150 KiB); edge = the same with names that start with a basic IDL type name, IDL keywords as names, or empty nested tuples; text = arbitrary text (random bytes, IDL token soup, mutated valid IDL, valid IDL cut anywhere and ending in the beginning of a comment) must yield a package or an error, never a panic. Distinct non-trivial = distinct generated IDL texts with at least one action (roundtrip) / distinct texts (text).")
+	c.Note("rule", "streams: roundtrip = packages of 1-3 generated meta-objects (methods with tuple parameter signatures - with no, exactly as many, fewer or more parameter descriptions than parameters - and any return incl. v, signals and properties with tuple signatures; signatures from the grammar with structs shared between actions, nested tuples, template-style struct names, m o X; unique uids in 1..2^32-1; names = identifiers avoiding IDL keywords and basic-type prefixes): ParseIDL(GenerateIDL(m)) must give the same uids, names and signatures; case-twins = the same with structure names that differ from another structure's name by the case of the first letter only; wide = the same with one action of 120 .. 8000 parameters (one IDL line of 2 KiB .. 150 KiB); edge = the same with names that start with a basic IDL type name, IDL keywords as names, or empty nested tuples; text = arbitrary text (random bytes, IDL token soup, mutated valid IDL, valid IDL cut anywhere and ending in the beginning of a comment, valid IDL under a package declaration with an unusual name: empty dotted components, leading / trailing dots and dashes, no newline) must yield a package or an error, never a panic. Distinct non-trivial = distinct generated IDL texts with at least one action (roundtrip) / distinct texts (text).")
 	depth := c.Pick(3, 5)
 	c.Cases("roundtrip", c.Pick(5000, 200000), func(i int, rng *rand.Rand) {
 		g := genMetaPackage(rng, 1+rng.Intn(depth), nil)
@@ -257,6 +257,19 @@ func c18(c *wk.Ctx) {
 				idl.GenerateIDL(&buf, "pkg", g.metas)
 				c.Sample(map[string]interface{}{"stream": "roundtrip", "idl": buf.String()})
 			}
+		}
+	})
+	// case-twins: structure names which are distinct identifiers but differ by the case of the first letter only
+	// (event / Event): both are declared and every action keeps referring to the right one
+	c.Cases("case-twins", c.Pick(1500, 40000), func(i int, rng *rand.Rand) {
+		g := genMetaPackage(rng, 2+rng.Intn(2), func(o *rc.GenOpts) { o.CaseTwins = true })
+		if roundTripIDL(c, "case-twins", i, g, "case-twins/") && g.pool.Twins > 0 {
+			h := ""
+			for n, m := range g.metas {
+				h += n + m.JSON()
+			}
+			c.Nontrivial(wk.Hash64("case-twins", h))
+			c.Count("struct_names_differing_by_first_letter_case", int64(g.pool.Twins))
 		}
 	})
 	// wide: one action with hundreds to thousands of parameters (GenerateIDL prints an action on ONE line:
@@ -337,6 +350,9 @@ func c18(c *wk.Ctx) {
 		switch i % 5 {
 		case 4:
 			text = cutIDL(rng)
+			if i%10 == 9 {
+				text = pkgNameIDL(rng)
+			}
 		case 0:
 			b := make([]byte, rng.Intn(300))
 			rng.Read(b)
@@ -415,6 +431,36 @@ func cutIDL(rng *rand.Rand) string {
 	}
 	tails := []string{"", "//", " //", "\n//", "// ", "//\n", "//\t\n \n", "//uid:", "//uid:7", "// uid:", "/", "#", "//\r\n", "//\r"}
 	return string(b[:p]) + tails[rng.Intn(len(tails))]
+}
+
+// pkgNameIDL returns valid generated IDL whose package declaration carries an unusual name: dotted paths
+// with empty components, leading / trailing dots and dashes, digits, very long names; sometimes the
+// declaration is all there is, or it is not terminated by a newline.
+func pkgNameIDL(rng *rand.Rand) string {
+	g := genMetaPackage(rng, 1+rng.Intn(2), nil)
+	var buf bytes.Buffer
+	if wk.Try2(func() { idl.GenerateIDL(&buf, "pkg", g.metas) }) {
+		return "package p"
+	}
+	body := buf.String()
+	if k := strings.Index(body, "\n"); k >= 0 {
+		body = body[k+1:]
+	}
+	parts := []string{"qi", "a", "B9", "_x", "te-st", "", "", "-", "_", "0", "x_", "test", strings.Repeat("n", 1+rng.Intn(300))}
+	n := 1 + rng.Intn(5)
+	comp := make([]string, n)
+	for k := range comp {
+		comp[k] = parts[rng.Intn(len(parts))]
+	}
+	name := strings.Join(comp, ".") + []string{"", "", ".", "..", "-", "_", ".x."}[rng.Intn(7)]
+	decl := []string{"package " + name + "\n", "package " + name, "package\t" + name + " \n", "package " + name + " // c\n", " package " + name + "\r\n", "package " + name + "\n\n"}[rng.Intn(6)]
+	switch rng.Intn(4) {
+	case 0:
+		return decl
+	case 1:
+		return decl + body[:rng.Intn(len(body)+1)]
+	}
+	return decl + body
 }
 
 // regen re-prints every signature of the package after struct definitions were renamed.
